@@ -135,7 +135,7 @@ func c14FlagSpace(tier string) []c14Flags {
 	arrays := []struct {
 		a string
 		p bool
-	}{{"", false}, {"", true}, {"-set", false}, {"-mset", false}, {"-setkeys id", false}}
+	}{{"", false}, {"", true}, {"-set", false}, {"-mset", false}, {"-setkeys id", false}, {"-setkeys id,v", false}}
 	for _, ar := range arrays {
 		for _, y := range []bool{false, true} {
 			for _, c := range []bool{false, true} {
@@ -537,8 +537,29 @@ func runC14Diff(c *engine.Case) engine.Result {
 	fd := cli.WriteFile(dir, "the.diff", produced)
 	pargs := append(append([]string{}, extra...), "-p")
 	pargs = append(pargs, f.args()...)
-	pargs = append(pargs, fd, fa)
-	pgot := cli.Run(dir, bin, pargs, nil)
+	pOut := filepath.Join(dir, "patched.out")
+	if f.Out {
+		// the patch mode honours -o as well, over an existing longer file
+		os.WriteFile(pOut, []byte(strings.Repeat("stale output from an earlier run\n", 200)), 0644)
+		pargs = append(pargs, "-o", pOut)
+	}
+	var pStdin *string
+	if f.Stdin {
+		pargs = append(pargs, fd) // the document to patch comes from stdin
+		pStdin = &aText
+	} else {
+		pargs = append(pargs, fd, fa)
+	}
+	pgot := cli.Run(dir, bin, pargs, pStdin)
+	if f.Out && pgot.Exit == 0 {
+		if pgot.Stdout != "" {
+			res.Violation = fmt.Sprintf("jd -p -o printed to stdout: %q | flags: -p %s %s", pgot.Stdout, strings.Join(extra, " "), c.X)
+			return res
+		}
+		if b, err := os.ReadFile(pOut); err == nil {
+			pgot.Stdout = string(b)
+		}
+	}
 	res.Transitions++
 	res.Traces++
 	res.Bucket += "/patch-roundtrip"
